@@ -27,7 +27,8 @@ def limitOfEp (ep : Endpoint) (s : String) : Option (Option Nat) :=
   else if s = "-" then some (effectiveLimit c ep (some (.assumed .dflt none)))
   else
     let optOf (x : String) : Option (Option Nat) := if x = "-" then some none else x.toNat?.map some
-    match s.splitOn "," with
+    -- (an optional 4th element, the server's outbound queue capacity, is not part of the model)
+    match (s.splitOn ",").take 3 with
     | [a, fr, ms] =>
       -- `N,F,M`: default().with_max_incoming_frame_size(F).with_max_incoming_message_size(M).with_assumed…(N)
       match optOf a, optOf fr, optOf ms with
@@ -36,16 +37,21 @@ def limitOfEp (ep : Endpoint) (s : String) : Option (Option Nat) :=
       | _, _, _ => none
     | _ => s.toNat?.map fun n => effectiveLimit c ep (some (.assumed .dflt (some n)))
 
-def paths : List String := ["inline", "off", "joff", "push", "pushoff", "pushn", "bcast", "bcastj", "bcastu", "proxy"]
+def paths : List String := ["inline", "off", "joff", "push", "pushoff", "pushn", "pushrun", "bcast", "bcastj", "bcastu", "proxy"]
 
 /-- the client API used (all funnel into `write_request`; which one is not part of the model) -/
-def clientKinds : List String := ["call", "notify", "cjson", "cjsont", "ctyped", "cbeve", "rwrite", "njson", "nbeve", "batch"]
+def clientKinds : List String := ["call", "notify", "cjson", "cjsont", "ctyped", "cbeve", "rwrite", "njson", "nbeve", "batch", "batchrun"]
 
-def showReport (path : String) (f : LimitFacts) (size l : Nat) : String :=
+/-- how many identical messages the op queues: a broadcast once per registered peer (the harness keeps two),
+`pushrun` / `batchrun` a run whose length is read off the id -/
+def copiesOf (kind : String) (id : Nat) : Nat :=
+  if kind.startsWith "bcast" then 2
+  else if kind = "pushrun" || kind = "batchrun" then [2, 9, 17, 65].getD (id % 4) 1
+  else 1
+
+def showReport (path : String) (id : Nat) (f : LimitFacts) (size l : Nat) : String :=
   if path = "proxy" then " ; report -"
-  else if f.reports then
-    -- a broadcast is queued once per registered peer (the harness keeps two): each connection's writer refuses its copy
-    if path.startsWith "bcast" then s!" ; report {size} {l} ; report {size} {l}" else s!" ; report {size} {l}"
+  else if f.reports then String.join (List.replicate (copiesOf path id) s!" ; report {size} {l}")
   else " ; report -"
 
 def step (st : Unit) (ws : List String) : Unit × String :=
@@ -58,18 +64,18 @@ def step (st : Unit) (ws : List String) : Unit × String :=
       if ¬ f.writerGuarded then (st, s!"{idx} send {48 + q + b} same ; report -")
       else match decideOutbound f limit n q b with
       | .pass => (st, s!"{idx} send {48 + q + b} same ; report -")
-      | .drop size l => (st, s!"{idx} drop" ++ showReport path f size l)
+      | .drop size l => (st, s!"{idx} drop" ++ showReport path i f size l)
       | .replace size l =>
         let rm := replacementMsg f i (List.replicate r 0)
         (st, s!"{idx} send {48 + rm.query.length + rm.body.length} replaced {rm.header.ec} {rm.header.id}"
-              ++ showReport path f size l)
+              ++ showReport path i f size l)
     | _, _, _ => (st, idx ++ " bad-op")
   | ["client", idx, kind, lim, id, qlen, blen] =>
     match limitOfEp .client lim, clientKinds.contains kind, [id, qlen, blen].all (·.isNat) with
     | some limit, true, true =>
       let (q, b) := (natOf qlen, natOf blen)
       match checkOutbound f.cmp limit (lenOf f.clientLenTerms q b) with
-      | none => (st, s!"{idx} ok wire {48 + q + b}")
+      | none => (st, s!"{idx} ok wire " ++ ",".intercalate (List.replicate (copiesOf kind (natOf id)) (toString (48 + q + b))))
       | some (s, l) =>
         (st, s!"{idx} MessageTooLarge {s} {l} wire " ++ (if f.clientChecksFirst then "-" else toString (48 + q + b)))
     | _, _, _ => (st, idx ++ " bad-op")
